@@ -1,6 +1,8 @@
 package dgen
 
 import (
+	"strings"
+
 	"verif/harness/internal/core"
 	m "verif/harness/internal/model"
 	"verif/harness/internal/tsys"
@@ -532,6 +534,42 @@ var Faults = []Fault{
 		tv.set(bad[c.R.Intn(len(bad))])
 		return true
 	}},
+	{"unsorted-object-for-leaf-twice", "ValuesOfCorrectType", func(c *FCtx) bool {
+		// an object literal whose keys are not in name order where a built-in scalar or an enum is expected, on a field
+		// that is selected twice under the same response name (identical, so the two merge): the rule that reports the
+		// literal prints it, the rule that compares the two fields reads it
+		builtin := map[string]bool{"Int": true, "Float": true, "String": true, "Boolean": true, "ID": true}
+		leafArg := func(s selSite) *m.ArgDef {
+			fd := c.fieldDef(s.parent, s.sel().Name)
+			if fd == nil {
+				return nil
+			}
+			for _, a := range fd.Args {
+				if td := c.Mg.Types[a.Type.Base()]; a.Type.Elem == nil && (builtin[a.Type.Base()] || (td != nil && td.Kind == "enum")) {
+					return a
+				}
+			}
+			return nil
+		}
+		s, ok := c.pick(c.fieldSites(true), func(s selSite) bool { return leafArg(s) != nil })
+		if !ok {
+			return false
+		}
+		a := leafArg(s)
+		one := func(raw string) *m.Value { return &m.Value{Kind: m.VInt, Raw: raw} }
+		lit := &m.Value{Kind: m.VObject, Fields: []m.ObjField{{Name: "zeta", Value: one("1")}, {Name: "mid", Value: &m.Value{Kind: m.VObject, Fields: []m.ObjField{{Name: "b", Value: one("1")}, {Name: "a", Value: one("2")}}}}, {Name: "alpha", Value: &m.Value{Kind: m.VList, Items: []*m.Value{one("2")}}}}}
+		var keep []m.Arg
+		for _, x := range s.sel().Args {
+			if x.Name != a.Name {
+				keep = append(keep, x)
+			}
+		}
+		s.sel().Args = append(keep, m.Arg{Name: a.Name, Value: lit})
+		dup := cloneSels([]*m.Sel{s.sel()})[0]
+		at := s.idx + c.R.Intn(len(*s.list)-s.idx) + 1
+		*s.list = append((*s.list)[:at], append([]*m.Sel{dup}, (*s.list)[at:]...)...)
+		return true
+	}},
 	{"list-for-non-list", "ValuesOfCorrectType", func(c *FCtx) bool {
 		tv, ok := c.pickValue(func(tv typedValue, td *tsys.Def) bool {
 			return td != nil && (td.BuiltIn || td.Kind == "enum" || td.Kind == "input") && namedLeaf(tv) && tv.val.Kind != m.VNull
@@ -1019,6 +1057,44 @@ var Faults = []Fault{
 	}},
 	{"fragment-on-leaf", "FragmentsOnCompositeTypes", func(c *FCtx) bool {
 		leaf := c.R.Pick("Int", "String", "Boolean")
+		if c.R.Bool() {
+			// any type of the schema that is not composite: custom scalars, enums and INPUT OBJECTS (which have fields, so
+			// the selections are rewritten to name some of them: nothing else about the fragment is wrong)
+			var names []string
+			for _, n := range c.Mg.TypeNames {
+				if d := c.Mg.Types[n]; d != nil && (d.Kind == "scalar" || d.Kind == "enum" || d.Kind == "input") {
+					names = append(names, n)
+				}
+			}
+			if len(names) > 0 {
+				leaf = names[c.R.Intn(len(names))]
+			}
+		}
+		inside := func() []*m.Sel {
+			out := []*m.Sel{{Kind: m.SField, Name: "__typename"}}
+			if d := c.Mg.Types[leaf]; d != nil && d.Kind == "input" && c.R.Bool() {
+				out = nil
+				for _, f := range d.Fields {
+					if td := c.Mg.Types[f.Type.Base()]; td != nil && (td.Kind == "scalar" || td.Kind == "enum") && (len(out) == 0 || c.R.Bool()) {
+						out = append(out, &m.Sel{Kind: m.SField, Name: f.Name})
+					}
+				}
+				if len(out) == 0 {
+					out = []*m.Sel{{Kind: m.SField, Name: "__typename"}}
+				}
+			}
+			return out
+		}
+		if d := c.Mg.Types[leaf]; d != nil && d.Kind == "input" {
+			s, ok := c.pick(c.sites(), func(s selSite) bool { return s.sel().Kind == m.SInline })
+			if !ok {
+				return false
+			}
+			s.sel().TypeCond = leaf
+			s.sel().Sel = inside()
+			s.sel().Dirs = nil
+			return true
+		}
 		if fs := c.frags(); len(fs) > 0 && c.R.Bool() {
 			fs[c.R.Intn(len(fs))].TypeCond = leaf
 			return true
@@ -1521,7 +1597,35 @@ func mutateName(r *core.Rand, n string) string {
 		return n + "x"
 	}
 	i := 1 + r.Intn(len(n)-1)
-	switch r.Intn(3) {
+	switch r.Intn(4) {
+	case 3:
+		// the right letters in the wrong case (equally far from every name that differs from it by case only)
+		b := []byte(n)
+		flip := func(k int) {
+			switch {
+			case b[k] >= 'a' && b[k] <= 'z':
+				b[k] -= 32
+			case b[k] >= 'A' && b[k] <= 'Z':
+				b[k] += 32
+			}
+		}
+		switch r.Intn(3) {
+		case 0:
+			flip(r.Intn(len(b)))
+		case 1:
+			flip(0)
+			flip(len(b) - 1)
+		default:
+			for k := range b {
+				if r.Bool() {
+					flip(k)
+				}
+			}
+		}
+		if string(b) != n {
+			return string(b)
+		}
+		return n + "x"
 	case 0:
 		return n[:i] + string("xtz"[r.Intn(3)]) + n[i+1:]
 	case 1:
@@ -1548,6 +1652,36 @@ func init() {
 			if c.R.Bool() {
 				// a small fixed pool, so that the same unknown name meets many schemas with different close names
 				typo = c.R.Pick("Dox", "Dg", "Usr", "Pst", "Cot", "Comnent", "Doo", "Poss")
+			}
+			// names of the schema that differ by case only: a third spelling of them is equally close to each
+			byLower := map[string][]string{}
+			for _, n := range names {
+				byLower[strings.ToLower(n)] = append(byLower[strings.ToLower(n)], n)
+			}
+			var twins []string
+			for _, n := range names {
+				if len(byLower[strings.ToLower(n)]) > 1 {
+					twins = append(twins, n)
+				}
+			}
+			if len(twins) > 0 && c.R.Bool() {
+				base := []byte(twins[c.R.Intn(len(twins))])
+				for try := 0; try < 8; try++ {
+					b := append([]byte{}, base...)
+					for k := range b {
+						if c.R.Bool() {
+							if b[k] >= 'a' && b[k] <= 'z' {
+								b[k] -= 32
+							} else if b[k] >= 'A' && b[k] <= 'Z' {
+								b[k] += 32
+							}
+						}
+					}
+					if c.Mg.Types[string(b)] == nil {
+						typo = string(b)
+						break
+					}
+				}
 			}
 			if c.Mg.Types[typo] != nil {
 				return false
